@@ -34,7 +34,7 @@ ANCHORS = [
     "stereomolgraph.experimental:topological_symmetry_number",
 ]
 REQUIRED_ANCHORS = ANCHORS
-REQUIRED = ["pairs_small", "pairs_symmetric", "symmetry_numbers", "reverts", "nonempty_answers", "empty_answers", "group_closure_checked", "labels:default", "labels:colour", "labels:constant", "pairs_regular"]
+REQUIRED = ["pairs_small", "pairs_symmetric", "symmetry_numbers", "reverts", "nonempty_answers", "empty_answers", "group_closure_checked", "labels:default", "labels:colour", "labels:constant", "pairs_regular", "scale_cases"]
 CASE_TIMEOUT = 120
 LABELS = ("default", "colour", "constant", "element", "element+degree")
 _diag = {"on": False, "bad": 0, "updates": 0, "reverts": 0}
@@ -114,6 +114,9 @@ def gen_cases(ctx):
                 continue
             b = sem.pg_relabel(b, gen.random_bijection(rng, b))
         yield {"kind": "small", "family": "regular", "cls": cls, "a": pg_to_json(a), "b": pg_to_json(b), "stereo": False, "change": False, "labels": "default" if i % 8 < 6 else "constant", "bseed": rng.randrange(1 << 30)}
+    # very long chains: search depth = number of atoms
+    for k, nsz, cls, seed in gen.scale_specs(ctx, rng, reps=1):
+        yield {"kind": "small", "family": "scale", "cls": cls, "scale": nsz, "gseed": seed, "self": k % 2 == 0, "stereo": cls in STEREO, "change": cls == "StereoCondensedReactionGraph", "labels": "default", "bseed": seed // 3}
     names = ["methane", "ethane", "c2h4", "cyclopropane", "benzene", "star5", "sf6", "two_methane", "cyclohexane", "cubane", "biphenyl_core", "neopentane"]
     ns = ctx.n(48, 640)
     for i in range(ns):
@@ -178,11 +181,15 @@ def check_case(ctx, case):
     from stereomolgraph.algorithms.isomorphism import vf2pp_all_isomorphisms
 
     kind = case["kind"]
-    a = pg_from_json(case["a"])
+    a = pg_from_json(case["a"]) if "a" in case else gen.scale_pg(random.Random(case["gseed"]), case["cls"], case["scale"])
     brng = random.Random(case["bseed"])
     if kind == "tsn":
         return _tsn(ctx, case, a)
-    if kind == "small":
+    if kind == "small" and "scale" in case:
+        ctx.count("scale_cases")
+        b = a if case["self"] else sem.pg_relabel(a, gen.random_bijection(brng, a, "perm"))
+        stereo, change, lk = case["stereo"], case["change"], case["labels"]
+    elif kind == "small":
         b = pg_from_json(case["b"])
         stereo, change, lk = case["stereo"], case["change"], case["labels"]
     else:
@@ -262,7 +269,7 @@ def check_case(ctx, case):
             ctx.count("group_closure_checked")
             if not ok:
                 ctx.violate(f"C05/not-a-group/{case['cls']}/{mode}", f"automorphisms of {case.get('name')} are not closed under composition/inverse or lack the identity", case)
-    ctx.sample({"kind": kind, "class": case["cls"], "mode": mode, "n_atoms": len(a["atoms"]), "n_mappings": len(real), "reverts": reverts, "a": case["a"] if kind == "small" else case.get("name")})
+    ctx.sample({"kind": kind, "class": case["cls"], "mode": mode, "n_atoms": len(a["atoms"]), "n_mappings": len(real), "reverts": reverts, "a": case.get("a", f"chain of {case.get('scale')} atoms") if kind == "small" else case.get("name")})
 
 
 def _tsn(ctx, case, a):
